@@ -75,9 +75,49 @@ func (e *Subscription) Val() []byte {
 	return buffer
 }
 
+// checkLengths walks an encoded event value which consists of a number of single
+// bytes, a number of unsigned varints and a number of length-prefixed fields, in
+// this order. It reports whether every announced length fits into the value: the
+// codec trusts those lengths and would slice or allocate by them.
+func checkLengths(v []byte, bytes, varints, fields int) bool {
+	if len(v) < bytes {
+		return false
+	}
+
+	v = v[bytes:]
+	for i := 0; i < varints+fields; i++ {
+		var x uint64
+		var n int
+		for shift := uint(0); ; shift += 7 {
+			if n >= len(v) || n >= 10 {
+				return false
+			}
+
+			b := v[n]
+			n++
+			x |= uint64(b&0x7f) << shift
+			if b < 0x80 {
+				break
+			}
+		}
+
+		v = v[n:]
+		if i >= varints {
+			if x > uint64(len(v)) {
+				return false
+			}
+			v = v[x:]
+		}
+	}
+	return true
+}
+
 // decodeSubscription decodes the event
 func decodeSubscription(k string, v []byte) (e Subscription, err error) {
 	if len(v) > 0 {
+		if !checkLengths(v, 0, 0, 2) {
+			return e, io.ErrUnexpectedEOF
+		}
 		err = binary.Unmarshal(v, &e)
 	}
 
@@ -160,6 +200,9 @@ func (e Connection) Val() []byte {
 // decodeConnection decodes the event
 func decodeConnection(k string, v []byte) (e Connection, err error) {
 	if len(v) > 0 {
+		if !checkLengths(v, 2, 1, 4) {
+			return e, io.ErrUnexpectedEOF
+		}
 		err = binary.Unmarshal(v, &e)
 	}
 
